@@ -103,6 +103,11 @@ def run(ctx):
     scheds5 = [s for n in (1, 2, 3) for s in pc.all_schedules(3, n)]
     S.add(items5, scheds5, ("hh",), "S5-empty-hh-tables")
     S.add(items5, pc.some_schedules(rng, 3, 3, 4) + pc.some_schedules(rng, 3, 2, 3), ("cms", "hh", "hll"), "S5-empty-hh-tables")
+    # ---- S6: a key and its NUL-padded aliases (different keys for C03) arrive on different workers, so that the pairwise
+    # merges compare them cell against cell: the result must satisfy C03/C04 for the whole stream (the one-change-x-all-checks
+    # matrix of DESIGN 9B showed C08 quiet on a merge that ignores the key length)
+    items6 = [pc.make_item(0, [(b"a", 3)], 1), pc.make_item(1, [(b"a\x00", 2)], 1), pc.make_item(2, [(b"\x00", 2), (b"", 1)], 1)]
+    S.add(items6, [s for n in (2, 3) for s in pc.all_schedules(3, n)], ("hh",), "S6-alias-keys-across-workers")
     # ---- S2: complete enumeration of a smaller space with all three sketches at once
     n2 = 3 if quick else 4
     items2 = pc.gen_items(rng, n2)
